@@ -98,6 +98,21 @@ theorem resolved_is_fixed_point (env : SEnv) (h : AcyclicOk env = true) :
         simpa [hb] using this
       exact (expand_stable env N' segs this (N' + 1) (by omega)).symm
 
+/-- **independent of the map order**: visiting the same definitions in any other order (any
+permutation of the entries) terminates as well, and every name ends up with the same text -/
+theorem resolve_order_independent (env env' : SEnv) (hp : env.Perm env') (h : AcyclicOk env = true) :
+    (∃ F, ∀ fuel, F ≤ fuel → resolveVariables fuel (renderEnv env') = .ok (resolved env')) ∧
+    ∀ k, mapFind k (resolved env') = mapFind k (resolved env) := by
+  have h' := acyclicOk_perm hp h
+  refine ⟨resolve_fixed_point env' h', fun k => ?_⟩
+  simp only [AcyclicOk, Bool.and_eq_true] at h h'
+  have hl := slookup_perm hp h.1.1 h'.1.1
+  unfold resolved
+  rw [mapFind_resolvedAux, mapFind_resolvedAux, hl k, ← hp.length_eq]
+  cases slookup env k with
+  | none => rfl
+  | some segs => simp only [Option.map_some]; rw [expand_congr hl]
+
 /-! ## the non-terminating map (finding C17-resolvevariables-cyclic-nontermination) -/
 
 /-- `a=$(b), b=$(b)$(b)`: whatever the fuel, the loop does not end — the value of `a` alternates
